@@ -23,7 +23,7 @@ def b01 (b : Bool) : String := if b then "1" else "0"
 def lblText : Lbl → String
   | .lock l => s!"lock:{l}" | .unlock l => s!"unlock:{l}"
   | .setFlag => "setflag" | .ldFlag v => s!"ldflag:{b01 v}" | .ldWc v => s!"ldwc:{b01 v}" | .stWc b => s!"stwc:{b01 b}"
-  | .park => "park" | .reacq n => s!"reacq:{b01 n}" | .notify => "notify"
+  | .park => "park" | .reacq n => s!"reacq:{b01 n}" | .notify l => if l == 2 then "notify" else s!"notify:{l}"
   | .evCheck => "evcheck" | .evPark => "evpark" | .evWake b => s!"evwake:{b01 b}"
   | .slPark => "slpark" | .slWake => "slwake"
   | .mark m => s!"mark:{markText m}" | .publish => "publish" | .crash => "crash"
@@ -33,13 +33,13 @@ def statusText : Status → String
 
 def taskFn : String → Option Nat
   | "any" => some fMainAny | "loop" => some fMainLoop | "sleep" => some fMainSleep
-  | "recvn" => some fMainRecvN | "recvt" => some fMainRecvT | _ => none
+  | "recvn" => some fMainRecvN | "recvt" => some fMainRecvT | "idle" => some fMainIdle | _ => none
 
-def parseSys (t n p c : String) : Option (Sys × Bool) :=
-  match taskFn t, n.toNat?, p, c.toNat? with
-  | some f, some ns, "0", some cap => if ns ≤ 3 && cap ≤ 3 then some (mk f ns false cap, t == "loop") else none
-  | some f, some ns, "1", some cap => if ns ≤ 3 && cap ≤ 3 then some (mk f ns true cap, t == "loop") else none
-  | _, _, _, _ => none
+def parseSys (t n p c : String) (st : String := "RUNNING") : Option (Sys × Bool) :=
+  match taskFn t, n.toNat?, p, c.toNat?, QmiModel.Gen.SyncProgs.stateNames.idxOf? st with
+  | some f, some ns, "0", some cap, some ts => if ns ≤ 3 && cap ≤ 3 then some (mk f ns false cap ts, t == "loop") else none
+  | some f, some ns, "1", some cap, some ts => if ns ≤ 3 && cap ≤ 3 then some (mk f ns true cap ts, t == "loop") else none
+  | _, _, _, _, _ => none
 
 def dedup (l : List St) : List St :=
   l.foldl (fun acc s => if acc.any (·.beq s) then acc else s :: acc) []
@@ -113,6 +113,10 @@ def stepLine (d : DState) (line : String) : DState × String :=
     match parseSys t n p c with
     | some (sys, isLoop) => let is := inits sys; ({ sys := sys, isLoop := isLoop, cands := is }, s!"ok {is.length}")
     | none => (d, "bad-op")
+  | ["sys", t, n, p, c, st] =>
+    match parseSys t n p c st with
+    | some (sys, isLoop) => let is := inits sys; ({ sys := sys, isLoop := isLoop, cands := is }, s!"ok {is.length}")
+    | none => (d, "bad-op")
   | ["ev", tid, lbl] =>
     match tid.toNat? with
     | none => (d, "bad-op")
@@ -124,11 +128,21 @@ def stepLine (d : DState) (line : String) : DState × String :=
   | ["q"] =>
     let ts := d.cands.filterMap taskTh
     (d, s!"task={uniqStr (ts.map fun t => statusText t.status)} fin={uniqStr (d.cands.map fun s => toString s.fin)} " ++
+        s!"state={uniqStr (d.cands.map fun s => QmiModel.Gen.SyncProgs.stateNames.getD s.tstate "?")} " ++
         s!"flag={uniqStr (d.cands.map fun s => b01 s.flag)} parked={uniqStr (ts.map fun t => b01 t.isParked)}")
   | ["check", t, n, p, c] =>
     match parseSys t n p c with
     | some (sys, isLoop) => (d, runCheck sys isLoop)
     | none => (d, "bad-op")
+  | ["check", "idle", n, st] =>
+    match n.toNat?, QmiModel.Gen.SyncProgs.stateNames.idxOf? st with
+    | some ns, some ts =>
+      if ns ≤ 3 then
+        let sys := sysEarly ts ns
+        let L := (explore sys).toList
+        (d, s!"states={L.length} " ++ (if closedB sys (explore sys) && L.all (earlyGood sys ts) then "ok" else "bad=stop-task-in-state"))
+      else (d, "bad-op")
+    | _, _ => (d, "bad-op")
   | ["progs"] => (d, " ".intercalate (QmiModel.Gen.SyncProgs.funcs.map fun f => s!"{f.code.length}/{f.handlers.length}"))
   | _ => (d, "bad-op")
 
